@@ -108,8 +108,11 @@ CHECKS = {
             "Theorems: names are (URI, local) so prefixes cannot matter; Strict and Transitional URIs map to the same names; comments, PIs, xmlns attributes are dropped, CDATA is text, split text concatenates; "
             "ignored elements and text nodes among siblings do not change what the reader returns. The expat/zipfile layer (declaration, encoding, BOM, char refs, zip order/compression, part names) is exercised "
             "by building each package under random compositions of the rewrites and requiring identical value and messages.",
-            BASE_NOTE + "expat's lexical layer and zipfile are runtime: metamorphic testing only.",
-            "DESIGN.md §5 C13"),
+            BASE_NOTE + "Also proved at package level: the conversion is a function of the lookups the package answers, so any permutation of entries with distinct names converts identically by all three entry points "
+            "(C13_entry_order; distinctness is necessary); packages whose located parts hold the same contents under other names read to the same document (C13_part_names; renaming a part found through the main part's relationships "
+            "additionally needs that no r:id / r:embed / r:link of the body resolves to the renamed relationship - counterexample SpellFacts.renamed_part_can_show); attribute order is unobservable for distinct names. "
+            "expat's lexical layer and zipfile are runtime: metamorphic testing only.",
+            "DESIGN.md §5 C13, §15"),
     "C16": ("proof",
             "Coq proofs that emitted warnings equal the reading-order anomaly trace and are deduplicated + end-to-end correspondence of messages + independent anomaly walk",
             "Theorems: unknown element => exactly one warning naming it, ignored element => none; converter warnings = warnings of the traversal in order; clean subtree => none; messages are NoDup and lose nothing; "
